@@ -29,7 +29,7 @@ m = dict(
     setup_cmd="./check --setup",
     hooks=dict(
         guard="verif",
-        enable="go test -c -tags verif -vet=off -modfile=<scratch copy of go.mod + rapid> -overlay=<scratch json mapping /verif/wb/*.go into /repo/snaps and hiding the repository's own *_test.go> ./snaps (run from /repo; black-box checks build a scratch module with `replace github.com/gkampitakis/go-snaps => /repo`)",
+        enable="go test -c -tags verif -vet=off -modfile=<scratch copy of go.mod + rapid> -overlay=<scratch json mapping /verif/wb/*.go into /repo/snaps, hiding the repository's own *_test.go, and adding generated files zz_verif_globals*.go (tag verif: re-initialisation of package-level variables) to snaps, match, match/internal/yaml and internal/difflib> ./snaps (run from /repo; black-box checks build a scratch module with `replace github.com/gkampitakis/go-snaps => /repo`)",
         baseline_off_cmd="/verif/tools/baseline.sh",
         source_commits=[],
         add_only=True,
